@@ -481,6 +481,10 @@ pub struct ReadBehaviour {
     /// read side (compact binary self-describing formats do)
     #[serde(default)]
     pub binary: bool,
+    /// sequences do not announce their length (`size_hint() == None`, what text
+    /// formats do); never together with the length-prefixed binary variant
+    #[serde(default)]
+    pub hide_size_hints: bool,
     pub seed: u64,
 }
 
@@ -495,6 +499,7 @@ impl ReadBehaviour {
             narrow_ints: false,
             f32_when_exact: false,
             binary: false,
+            hide_size_hints: false,
             seed: 0,
         }
     }
@@ -516,13 +521,29 @@ impl ReadBehaviour {
             narrow_ints: r.chance(1, 4),
             f32_when_exact: r.chance(1, 4),
             binary: r.chance(1, 3),
+            hide_size_hints: false,
             seed: r.next(),
         }
+        .with_hidden_hints()
+    }
+}
+
+impl ReadBehaviour {
+    /// derived from the behaviour's own seed (keeps the generator's stream aligned)
+    fn with_hidden_hints(mut self) -> Self {
+        self.hide_size_hints = !self.binary && self.seed % 3 == 0;
+        self
     }
 }
 
 pub fn from_tree<'de, T: Deserialize<'de>>(t: &'de Tree, b: ReadBehaviour) -> Result<T, StoreError> {
     T::deserialize(TreeDe { t, b, depth: 0 })
+}
+
+/// restore INTO an existing value (`Deserialize::deserialize_in_place`, serde's
+/// official entry point for reusing allocations)
+pub fn from_tree_in_place<'de, T: Deserialize<'de>>(t: &'de Tree, b: ReadBehaviour, place: &mut T) -> Result<(), StoreError> {
+    T::deserialize_in_place(TreeDe { t, b, depth: 0 }, place)
 }
 
 #[derive(Clone, Copy)]
@@ -558,7 +579,11 @@ impl<'de> SeqAccess<'de> for SeqAcc<'de> {
         }
     }
     fn size_hint(&self) -> Option<usize> {
-        Some(self.items.len())
+        if self.parent.b.hide_size_hints && !self.parent.b.binary {
+            None
+        } else {
+            Some(self.items.len())
+        }
     }
 }
 
